@@ -501,6 +501,10 @@ def irq_judge(ctx, plan, ops, inbound, lines, script):
 			ctx.count("interrupts_inside_main_context_code")
 			ctx.count("interrupt:%s" % p[1])
 			PREEMPTED_AT.add(p[3])
+		elif l.startswith("STUCK"):
+			ctx.violation("interrupt", w, what = "interrupts are still masked after the main context has left sercomm "
+				"(a critical section is not closed): no UART interrupt is served any more, nothing is transmitted or received")
+			return
 		elif l.startswith("PANIC"):
 			ctx.violation("interrupt", w, what = "firmware gives up under interrupt load with <= 20 messages in flight: %s" % l[:80])
 			return
